@@ -2,16 +2,19 @@
 # usage: verify_seed.sh <worktree> <seed dir containing patch.diff demo.py> <name>
 # Confirms: patch applies on the clean tree; pinned baseline keeps every stable test; the demo passes on the
 # clean tree and fails with the patch.  Prints one RESULT line.  Leaves the worktree clean.
+# The demo is run from <worktree>/_out/mut1/demo.py (the layout the seeds were written in).
 WT=$1; SD=$(realpath $2); NAME=$3
 cd $WT || exit 2
 git checkout -q -- . 2>/dev/null
-clean_demo=$(cd $WT && PYTHONPATH=$WT timeout 300 /venv/bin/python $SD/demo.py >/dev/null 2>&1; echo $?)
-if ! git apply --check $SD/patch.diff 2>/dev/null; then echo "RESULT $NAME apply=FAIL"; exit 0; fi
-git apply $SD/patch.diff
-HID=""
-case $SD in $WT/*) HID=$WT/_out; mv $WT/_out /tmp/_out_hidden_$$ ;; esac
+rm -rf $WT/_out; mkdir -p $WT/_out/mut1; cp $SD/demo.py $SD/patch.diff $WT/_out/mut1/; touch $WT/_out/__init__.py $WT/_out/mut1/__init__.py
+D=$WT/_out/mut1
+clean_demo=$(cd $WT && PYTHONPATH=$WT timeout 300 /venv/bin/python $D/demo.py >/dev/null 2>&1; echo $?)
+if ! git apply --check $D/patch.diff 2>/dev/null; then echo "RESULT $NAME apply=FAIL"; rm -rf $WT/_out; exit 0; fi
+git apply $D/patch.diff
+mv $WT/_out /tmp/_out_hidden_$$
 base=$(/verif/tools/baseline.sh $WT 2>/dev/null | head -1)
-[ -n "$HID" ] && mv /tmp/_out_hidden_$$ $WT/_out
-mut_demo=$(cd $WT && PYTHONPATH=$WT timeout 300 /venv/bin/python $SD/demo.py >/dev/null 2>&1; echo $?)
+mv /tmp/_out_hidden_$$ $WT/_out
+mut_demo=$(cd $WT && PYTHONPATH=$WT timeout 300 /venv/bin/python $D/demo.py >/dev/null 2>&1; echo $?)
 git checkout -q -- .
+rm -rf $WT/_out
 echo "RESULT $NAME apply=ok clean_demo_exit=$clean_demo mutant_demo_exit=$mut_demo baseline=[$base]"
